@@ -108,7 +108,7 @@ func (p *progress) set(s string) {
 
 func workerMain() int {
 	setMemLimit()
-	startHangWatchdog(time.Duration(envInt("VERIF_HANG_S", 60)) * time.Second)
+	startHangWatchdog(time.Duration(envInt("VERIF_HANG_S", 25)) * time.Second)
 	prop := os.Getenv("VERIF_PROP")
 	p := registry[prop]
 	if p == nil {
@@ -269,7 +269,7 @@ func workerMain() int {
 // replayMain re-executes one recorded run and prints its outcome as JSON.
 func replayMain() int {
 	setMemLimit()
-	startHangWatchdog(time.Duration(envInt("VERIF_HANG_S", 60)) * time.Second)
+	startHangWatchdog(time.Duration(envInt("VERIF_HANG_S", 25)) * time.Second)
 	b, err := os.ReadFile(os.Getenv("VERIF_REPLAY"))
 	if err != nil {
 		fmt.Fprintln(os.Stderr, err)
@@ -324,6 +324,7 @@ func shrink(p *Property, sc *Scenario, fail RunResult, thorough bool, maxCand in
 	sig := fail.Viol.Sig
 	start := time.Now()
 	n := 0
+	abandoned := 0
 	try := func(tape []uint32) bool {
 		if n >= maxCand || time.Since(start) > maxTime {
 			return false
@@ -331,6 +332,12 @@ func shrink(p *Property, sc *Scenario, fail RunResult, thorough bool, maxCand in
 		n++
 		d := RunDesc{Prop: p.ID, Scen: sc.Name, Case: fail.Desc.Case, Seed: fail.Desc.Seed, Tape: tape}
 		r := runOne(p, sc, d, thorough)
+		if r.Abandoned {
+			abandoned++
+			if abandoned > 150 {
+				maxCand = n // every candidate leaves a stuck bubble behind: stop early
+			}
+		}
 		if r.Viol != nil && r.Viol.Sig == sig && r.HarnessE == "" {
 			// keep the tape as consumed (drops an unread tail)
 			if len(r.Tape) > len(tape) {
